@@ -9,7 +9,8 @@ RULE = ("fault-script scenarios on the real (non-idempotent) AsyncProducer again
         "retriable-after-append, fatal, drop before/after append, missing block, leader moved} x metadata failures; a quarter to a half of the "
         "scenarios are STEERED (a goroutine is held at a hook point until a condition was observed) into the windows named by the property: "
         "w1 fresh input between a bounce and its chaser, w2 between levels of flushRetryBuffers, w3 after `abandoned` was closed (Retry.Max=0), "
-        "w4 leader move while a chaser is in flight, w5 bounded buffer overflowing while a request is in flight (waitForSpace). "
+        "w4 leader move while a chaser is in flight, w5 bounded buffer overflowing while a request is in flight (waitForSpace), w6 several partitions "
+        "sharing one broker worker with one partition's chaser queued between another partition's bounced and fresh messages. "
         "A scenario is non-trivial when a request is faulted or two messages share a partition. A case = all per-goroutine hook logs of one run: "
         "(1) replayed through the actor step functions of coq/Producer/Actors.v (local trace validation against the code), (2) every logged "
         "partition-worker and broker-worker step re-run on the dedicated ordering model coq/C02/Model.v from the abstraction of the actor state "
@@ -43,7 +44,9 @@ def run(c):
             pass
         return ks
     c.known = known
-    if not c.coq_make(dirs=["Producer", "C02"]):
+    # only C02/*.v + Properties/C02.v are targets; the Producer files they import (Msg, Actors, Corr, Compose) are built as
+    # dependencies, so another builder's unfinished Producer file cannot break this check
+    if not c.coq_make(dirs=["C02"]):
         return
     c.coq_properties()
     b = c.go_build("c02corr")
